@@ -62,7 +62,9 @@ func c23IA(i int) addr.IA {
 	return addr.MustIAFrom(isd, addr.AS(0xff0000000200+i))
 }
 
-func c23PeerIA(i int, ifid uint16) addr.IA { return addr.MustIAFrom(3, addr.AS(0xff0000000900+uint64(i)*16+uint64(ifid))) }
+func c23PeerIA(i int, ifid uint16) addr.IA {
+	return addr.MustIAFrom(3, addr.AS(0xff0000000900+uint64(i)*16+uint64(ifid)))
+}
 
 func c23Key16(i int) []byte {
 	k := make([]byte, 16)
